@@ -355,6 +355,118 @@ static void check_long_strings()
         viol("pair<long-string,long-string>:hash-ignores-order", std::to_string(swapped_same) + " of " + std::to_string(pairs));
 }
 
+// other component TYPES: bool, char, 64 bit unsigned (values that differ in the high half only), float, the
+// empty tuple, one-element and nested tuples, pairs of pairs, a variant with a repeated alternative type
+struct D : nitro::lang::tuple_operators<D>
+{
+    bool b;
+    char c;
+    unsigned long long u;
+    float f;
+    D(bool b, char c, unsigned long long u, float f) : b(b), c(c), u(u), f(f)
+    {
+    }
+    auto as_tuple() const
+    {
+        return std::tie(b, c, u, f);
+    }
+};
+
+static int ref_cmp(const D& x, const D& y)
+{
+    if (x.b != y.b)
+        return x.b < y.b ? -1 : 1;
+    if (x.c != y.c)
+        return x.c < y.c ? -1 : 1;
+    if (x.u != y.u)
+        return x.u < y.u ? -1 : 1;
+    if (x.f < y.f)
+        return -1;
+    if (y.f < x.f)
+        return 1;
+    return 0;
+}
+
+static void check_more_types(std::uint64_t seed)
+{
+    using nitro::lang::hash;
+    std::vector<D> gd;
+    for (bool b : { false, true })
+        for (char c : { '\0', 'a', '\x7f', static_cast<char>(0x80) })
+            for (unsigned long long u : { 0ULL, 1ULL, 1ULL << 32, (1ULL << 32) + 1, 1ULL << 63, ~0ULL })
+                for (float f : { 0.0f, 0.5f, -2.0f })
+                    gd.emplace_back(b, c, u, f);
+    check_operators("struct<bool,char,uint64,float>", gd, false);
+    check_sensitivity("struct<bool,char,uint64,float>", gd, [](const D& x) { return hash(x); },
+                      [](const D& x, const D& y, int pos) {
+                          bool d0 = x.b != y.b, d1 = x.c != y.c, d2 = x.u != y.u, d3 = x.f != y.f;
+                          return (d0 + d1 + d2 + d3) == 1 && (pos == 0 ? d0 : pos == 1 ? d1 : pos == 2 ? d2 : d3);
+                      },
+                      4);
+    check_set<nitro::lang::unordered_set<D>>("unordered_set<struct<bool,char,uint64,float>>", gd, seed + 11);
+
+    using T1 = std::tuple<unsigned long long>;
+    std::vector<T1> g1;
+    for (unsigned long long u : { 0ULL, 1ULL, 1ULL << 32, (1ULL << 32) + 1, 1ULL << 63, ~0ULL, 2ULL, 1ULL << 33 })
+        g1.emplace_back(u);
+    check_hash_eq("tuple<uint64>", g1, [](const T1& t) { return hash(t); });
+    {
+        std::set<std::size_t> hs;
+        for (auto& t : g1)
+            hs.insert(hash(t));
+        if (hs.size() + 1 < g1.size())
+            viol("tuple<uint64>:hash-ignores-component-0", std::to_string(hs.size()) + " distinct hashes for " + std::to_string(g1.size()) + " values");
+    }
+    check_set<nitro::lang::unordered_set<T1>>("unordered_set<tuple<uint64>>", g1, seed + 12);
+
+    using TN = std::tuple<std::tuple<int, bool>, std::pair<std::pair<char, int>, std::tuple<>>>;
+    std::vector<TN> gn;
+    for (int a : { 0, 1, -1 })
+        for (bool b : { false, true })
+            for (char c : { 'x', 'y' })
+                for (int d : { 0, 65536 })
+                    gn.emplace_back(std::make_tuple(a, b), std::make_pair(std::make_pair(c, d), std::tuple<>()));
+    check_hash_eq("nested-tuple<tuple<int,bool>,pair<pair<char,int>,tuple<>>>", gn, [](const TN& t) { return hash(t); });
+    check_sensitivity("nested-tuple", gn, [](const TN& x) { return hash(x); },
+                      [](const TN& x, const TN& y, int pos) {
+                          bool d0 = std::get<0>(std::get<0>(x)) != std::get<0>(std::get<0>(y));
+                          bool d1 = std::get<1>(std::get<0>(x)) != std::get<1>(std::get<0>(y));
+                          bool d2 = std::get<1>(x).first.first != std::get<1>(y).first.first;
+                          bool d3 = std::get<1>(x).first.second != std::get<1>(y).first.second;
+                          return (d0 + d1 + d2 + d3) == 1 && (pos == 0 ? d0 : pos == 1 ? d1 : pos == 2 ? d2 : d3);
+                      },
+                      4);
+    check_set<nitro::lang::unordered_set<TN>>("unordered_set<nested-tuple>", gn, seed + 13);
+    if (hash(std::tuple<>()) != hash(std::tuple<>()))
+        viol("tuple<>:equal-values-hash-differently", "");
+
+    // a variant whose alternatives have the same type: values are equal iff index AND value are equal
+    using VR = std::variant<int, int, std::string, std::string>;
+    std::vector<VR> gv;
+    for (int v : { 0, 1, 7 })
+    {
+        gv.emplace_back(std::in_place_index<0>, v);
+        gv.emplace_back(std::in_place_index<1>, v);
+    }
+    for (const char* t : { "", "a", "7" })
+    {
+        gv.emplace_back(std::in_place_index<2>, t);
+        gv.emplace_back(std::in_place_index<3>, t);
+    }
+    check_hash_eq("variant<int,int,string,string>", gv, [](const VR& v) { return hash(v); });
+    check_set<nitro::lang::unordered_set<VR>>("unordered_set<variant<int,int,string,string>>", gv, seed + 14);
+    {
+        // different values of one alternative must not collide systematically
+        std::set<std::size_t> hs;
+        for (auto& v : gv)
+            if (v.index() == 1 || v.index() == 3)
+                hs.insert(hash(v));
+        if (hs.size() < 5)
+            viol("variant<int,int,string,string>:hash-ignores-the-value-of-a-repeated-alternative", std::to_string(hs.size()));
+    }
+    stats["other-component-type-grids"] = 4;
+}
+
 int main(int argc, char** argv)
 {
     int scale = argc > 1 ? std::atoi(argv[1]) : 1;
@@ -386,6 +498,7 @@ int main(int argc, char** argv)
                       3);
     check_set<nitro::lang::unordered_set<A>>("unordered_set<struct<int8,int,longlong>>", ga, seed);
     check_long_strings();
+    check_more_types(seed);
 
     // --- B: string / double (signed zeros) / int
     std::vector<B> gb;
